@@ -10,6 +10,7 @@ import (
 	"time"
 
 	"verif/internal/gen"
+	"verif/internal/kf"
 	m "verif/internal/model"
 	"verif/internal/pipeline"
 	"verif/internal/rt"
@@ -208,6 +209,21 @@ func TestProbes(t *testing.T) {
 		o := outs[i]
 		if only := os.Getenv("VERIF_PROBE_ONLY"); only != "" && only != p.id {
 			continue
+		}
+		// A probe of a finding that is not open must not fail for an
+		// infrastructure reason (a loaded machine, a cold build cache): a
+		// failure is re-run alone with a generous budget and, when it is a
+		// timeout or a crash of the tool chain both times, reported as
+		// inconclusive instead of as the defect being back.
+		if f, ok := kf.Get(p.id); o.Failure != "" && (!ok || f.Status != "open") {
+			sess.GenTimeout = 300 * time.Second
+			o2 := sess.GenerateAndCompile(p.d, true)
+			t.Logf("probe %s failed (%s); alone with a 300s budget: %q", p.id, firstLine(o.Describe()), firstLine(o2.Describe()))
+			o = o2
+			if o.Failure == "timeout" || o.Failure == "crash" {
+				t.Errorf("INCONCLUSIVE: probe %s could not be evaluated: %s", p.id, firstLine(o.Describe()))
+				continue
+			}
 		}
 		if !o.Accepted && o.Failure == "" {
 			t.Logf("probe %s: design rejected: %v", p.id, o.Rejected)
